@@ -122,4 +122,176 @@ theorem src_check_account_proof_eq {Shard ShardAccount : Type} (fromBoc : Bytes 
     · simp [okUnit, hh, hg, he]
   · simp [checkAccountProof, okUnit]
 
+/-! ### `check_account_proof(..., return_account_descr=True)` and `check_shard_proof` -/
+
+theorem ite_none_bind {α β : Type} (c : Prop) [Decidable c] (e : Option α) (K : α → Option β) :
+    (if c then none else e).bind K = if c then none else e.bind K := by
+  split <;> rfl
+
+/-- DESCRIPTOR MODE.  `check_account_proof(..., return_account_descr=True)` regenerated returns a value exactly when the plain mode
+returns (EVERY comparison of the plain mode is made first, in the same order), and the value is the `ShardAccount` found under the
+address in the proved state cell - for ALL values of the declared externals. -/
+theorem src_account_descr_eq {Shard ShardAccount : Type} (fromBoc : Bytes → Option (List PCell))
+    (deser : PCell → Option Shard) (get : Shard → Nat → Option ShardAccount) (cellOf : ShardAccount → PCell)
+    (proof blkRootHash addr : Bytes) (state : PCell) :
+    check_account_proof_True fromBoc deser get cellOf proof blkRootHash addr state =
+      (check_account_proof_False fromBoc deser get cellOf proof blkRootHash addr state).bind fun _ =>
+        (fromBoc proof).bind fun roots => (roots[1]?).bind fun sc => (sc.refs[0]?).bind fun st =>
+          (deser st).bind fun sh => get sh (natOfBE addr) := by
+  unfold check_account_proof_True check_account_proof_False
+  rcases fromBoc proof with _ | roots
+  · rfl
+  simp only [Option.bind_some]
+  rcases roots with _ | ⟨p0, _ | ⟨p1, _ | ⟨p2, rest⟩⟩⟩
+  · simp
+  · simp
+  · simp only [List.length_cons, List.length_nil, List.getElem?_cons_zero, List.getElem?_cons_succ, Option.bind_some, Nat.zero_add,
+      Nat.reduceAdd, ne_eq, not_true_eq_false, if_false]
+    rcases check_proof p0 blkRootHash with _ | _ <;> simp only [Option.bind_some, Option.bind_none]
+    rcases p0.refs[0]? with _ | hdr <;> simp only [Option.bind_some, Option.bind_none]
+    rcases check_block_header_proof_True hdr blkRootHash with _ | sh <;> simp only [Option.bind_some, Option.bind_none]
+    rcases p1.refs[0]? with _ | st <;> simp only [Option.bind_some, Option.bind_none]
+    rcases st.info.getHash 0 with _ | gh <;> simp only [Option.bind_some, Option.bind_none]
+    by_cases he : gh = sh
+    · simp only [he, not_true_eq_false, if_false]
+      rcases check_proof p1 sh with _ | _ <;> simp only [Option.bind_some, Option.bind_none]
+      rcases deser st with _ | shd <;> simp only [Option.bind_some, Option.bind_none]
+      rcases get shd (natOfBE addr) with _ | sa <;> simp only [Option.bind_some, Option.bind_none]
+      rcases (cellOf sa).refs[0]? with _ | acc <;> simp only [Option.bind_some, Option.bind_none]
+      rcases acc.info.getHash 0 with _ | ah <;> simp only [Option.bind_some, Option.bind_none]
+      by_cases hq : ah = state.info.hash <;> simp [hq]
+    · simp [he]
+  · simp
+
+/-- ... in particular the two modes raise on exactly the same inputs -/
+theorem src_account_descr_isSome {Shard ShardAccount : Type} (fromBoc : Bytes → Option (List PCell))
+    (deser : PCell → Option Shard) (get : Shard → Nat → Option ShardAccount) (cellOf : ShardAccount → PCell)
+    (proof blkRootHash addr : Bytes) (state : PCell) :
+    (check_account_proof_True fromBoc deser get cellOf proof blkRootHash addr state).isSome =
+      (check_account_proof_False fromBoc deser get cellOf proof blkRootHash addr state).isSome := by
+  unfold check_account_proof_True check_account_proof_False
+  rcases fromBoc proof with _ | roots
+  · rfl
+  simp only [Option.bind_some]
+  rcases roots with _ | ⟨p0, _ | ⟨p1, _ | ⟨p2, rest⟩⟩⟩
+  · simp
+  · simp
+  · simp only [List.length_cons, List.length_nil, List.getElem?_cons_zero, List.getElem?_cons_succ, Option.bind_some, Nat.zero_add,
+      Nat.reduceAdd, ne_eq, not_true_eq_false, if_false]
+    rcases check_proof p0 blkRootHash with _ | _ <;> first | rfl | simp only [Option.bind_some, Option.bind_none, Option.isSome_none]
+    rcases p0.refs[0]? with _ | hdr <;> first | rfl | simp only [Option.bind_some, Option.bind_none, Option.isSome_none]
+    rcases check_block_header_proof_True hdr blkRootHash with _ | sh <;> first | rfl | simp only [Option.bind_some, Option.bind_none, Option.isSome_none]
+    rcases p1.refs[0]? with _ | st <;> first | rfl | simp only [Option.bind_some, Option.bind_none, Option.isSome_none]
+    rcases st.info.getHash 0 with _ | gh <;> first | rfl | simp only [Option.bind_some, Option.bind_none, Option.isSome_none]
+    by_cases he : gh = sh
+    · simp only [he, not_true_eq_false, if_false]
+      rcases check_proof p1 sh with _ | _ <;> first | rfl | simp only [Option.bind_some, Option.bind_none, Option.isSome_none]
+      rcases deser st with _ | shd <;> first | rfl | simp only [Option.bind_some, Option.bind_none, Option.isSome_none]
+      rcases get shd (natOfBE addr) with _ | sa <;> first | rfl | simp only [Option.bind_some, Option.bind_none, Option.isSome_none]
+      rcases (cellOf sa).refs[0]? with _ | acc <;> first | rfl | simp only [Option.bind_some, Option.bind_none, Option.isSome_none]
+      rcases acc.info.getHash 0 with _ | ah <;> first | rfl | simp only [Option.bind_some, Option.bind_none, Option.isSome_none]
+      by_cases hq : ah = state.info.hash <;> simp [hq]
+    · simp [he]
+  · simp
+
+/-- a `Py.loop?` whose body either returns `v` (stop) or goes on is a first-match search (generation independent) -/
+theorem loop_find {ι ρ : Type} (xs : List ι) (p : ι → Bool) (v : ρ) (f : ι → Option ρ → Option (Option ρ × Bool))
+    (hf : ∀ x r, f x r = some (if p x then (some v, true) else (none, false))) :
+    Py.loop? xs none f = some (if xs.any p then some v else none) := by
+  induction xs with
+  | nil => rfl
+  | cons x xs ih =>
+    rw [Py.loop?, hf]
+    by_cases hp : p x = true
+    · simp [hp]
+    · simp [hp, ih]
+
+/-- `check_shard_proof(shard_proof, blk, shrd_blk)` regenerated = `Model.checkShardProof` on the roots `Cell.from_boc` returns, with
+the model's two Boolean parameters READ FROM THE SOURCE (`shardBlockInfoOk`: the seqno / workchain comparison on the deserialised
+header; `findShardDescr`: state deserialisation, `custom.shard_hashes.get(workchain)`, the loop over `.list` with its `return`
+inside) - for ALL values of the declared externals.  Result: `some none` = the early `return` (`blk == shrd_blk`), `some (some d)` =
+the descriptor returned from inside the loop, `none` = raises. -/
+theorem src_check_shard_proof_eq {Shard BlockInfo ShardDict ShardDescr ShardEntry : Type} (fromBoc : Bytes → Option (List PCell))
+    (deser : PCell → Option Shard) (deserBlock : PCell → Option BlockInfo) (infoSeqno infoWorkchain : BlockInfo → Int)
+    (shardHashes : Shard → Option ShardDict) (shardGet : ShardDict → Int → Option ShardDescr)
+    (descrList : ShardDescr → List (Option ShardEntry)) (entryRootHash : ShardEntry → Bytes) (proof : Bytes) (blk shrd : BlkId) :
+    check_shard_proof fromBoc deser deserBlock infoSeqno infoWorkchain shardHashes shardGet descrList entryRootHash proof blk shrd =
+      if blk = shrd then some none
+      else if blk.workchain ≠ -1 then none
+      else (fromBoc proof).bind fun roots =>
+        if checkShardProof (shardBlockInfoOk deserBlock infoSeqno infoWorkchain blk.seqno blk.workchain)
+            (fun st => (findShardDescr deser shardHashes shardGet descrList entryRootHash shrd.workchain shrd.rootHash st).isSome)
+            false true roots blk.rootHash
+        then ((roots[1]?).bind fun s => (s.refs[0]?).bind fun st =>
+          findShardDescr deser shardHashes shardGet descrList entryRootHash shrd.workchain shrd.rootHash st).map some
+        else none := by
+  unfold check_shard_proof
+  by_cases hsame : blk = shrd
+  · simp [hsame]
+  simp only [hsame, if_false]
+  by_cases hmc' : ¬ blk.workchain = -1
+  · simp [hmc']
+  have hmc : blk.workchain = -1 := Classical.not_not.mp hmc'
+  simp only [hmc, ne_eq, not_true_eq_false, if_false]
+  rcases fromBoc proof with _ | roots
+  · rfl
+  simp only [Option.bind_some]
+  rcases roots with _ | ⟨b, _ | ⟨s, _ | ⟨p2, rest⟩⟩⟩
+  · simp [checkShardProof]
+  · simp [checkShardProof]
+  · simp only [List.length_cons, List.length_nil, List.getElem?_cons_zero, List.getElem?_cons_succ, Option.bind_some, Nat.zero_add,
+      Nat.reduceAdd, not_true_eq_false, if_false, checkShardProof, Bool.false_eq_true, Bool.not_true, src_check_proof_eq,
+      src_header_state_eq, shardBlockInfoOk, hmc]
+    rcases hb0 : b.refs[0]? with _ | hdr
+    · simp
+    simp only [Option.bind_some]
+    rcases hdb : deserBlock hdr with _ | bi
+    · rcases s.refs[0]? with _ | st <;> simp [hdb]
+    simp only [Option.bind_some]
+    by_cases hinfo' : ¬ (infoSeqno bi = blk.seqno ∧ infoWorkchain bi = -1)
+    · have hinfo := hinfo'
+      have hb : (infoSeqno bi == blk.seqno && infoWorkchain bi == -1) = false := by
+        rw [Bool.eq_false_iff]; intro h; apply hinfo; simpa using h
+      rcases s.refs[0]? with _ | st <;> simp [hinfo, hb, hdb]
+    have hinfo : infoSeqno bi = blk.seqno ∧ infoWorkchain bi = -1 := Classical.not_not.mp hinfo'
+    have hb : (infoSeqno bi == blk.seqno && infoWorkchain bi == -1) = true := by simpa using hinfo
+    simp only [hinfo, and_self, not_true_eq_false, if_false, hb]
+    rcases hs0 : s.refs[0]? with _ | st
+    · simp
+    simp only [Option.bind_some]
+    rcases hg : st.info.getHash 0 with _ | mh
+    · simp
+    simp only [Option.bind_some]
+    cases hc0 : checkProof b blk.rootHash
+    · simp
+    simp only [if_true, Option.bind_some, Bool.not_true, Bool.false_eq_true, if_false]
+    rcases hh : checkBlockHeaderProofState hdr blk.rootHash with _ | sh
+    · simp
+    simp only [Option.bind_some]
+    by_cases he' : ¬ mh = sh
+    · have : (mh != sh) = true := by simpa using he'
+      simp [he', this]
+    have he : mh = sh := Classical.not_not.mp he'
+    have hne : (mh != sh) = false := by simp [he]
+    simp only [he, not_true_eq_false, if_false, bne_self_eq_false, Bool.false_eq_true]
+    cases hc1 : checkProof s sh
+    · simp [hdb, hb]
+    simp only [if_true, Option.bind_some, Bool.not_true, Bool.false_eq_true, if_false, findShardDescr, hdb, hb, Bool.true_and,
+      Bool.and_true, Bool.and_self, decide_true]
+    rcases hds : deser st with _ | shd <;> simp only [Option.bind_some, Option.bind_none]
+    · simp
+    rcases hsh : shardHashes shd with _ | d <;> simp only [Option.bind_some, Option.bind_none]
+    · simp
+    rcases hgd : shardGet d shrd.workchain with _ | descr <;> simp only [Option.bind_some, Option.bind_none]
+    · simp
+    rw [loop_find (descrList descr) (entryMatches entryRootHash shrd.rootHash) (some descr)]
+    · generalize (descrList descr).any (entryMatches entryRootHash shrd.rootHash) = av
+      cases av <;> simp
+    · intro x r
+      cases x with
+      | none => rfl
+      | some e =>
+        by_cases hq : entryRootHash e = shrd.rootHash <;> simp [hq, entryMatches]
+  · simp [checkShardProof]
+
 end TonVerif.Proofs.SrcProof
